@@ -16,6 +16,11 @@ in live batched dynamics.  Five case kinds, one per clause of DESIGN section 6 "
               applied must be a bitwise permutation of the amplitude rows, the active index must follow the same
               permutation, and every label that moved must have gone to the state it corresponds to; whether a planned
               relabelling is applied at all is counted, not judged), row isolation vs a control run with a quiet row 0.
+ afterseq (d) the same three real methods for 3-6 consecutive steps on ONE object (its caches and reusable buffers
+              persist, the cache dicts are shifted as _do_integrator_step does): 2-3 crossing events at different steps
+              on different rows / pairs with quiet steps in between; every step is judged with the oracles of 'after',
+              and for each event a control sequence without it must leave every other row bitwise identical at
+              every step.
  tully    (e) TullyFSSH, batched, three model potentials: exact conservation across every _after_electronic_update,
               applied force = -dE_active/dx (finite difference of the model's own energy), total-energy drift against
               the velocity-Verlet shadow-Hamiltonian bound, norm.
@@ -53,6 +58,7 @@ ASSUMPTIONS = [
 REQUIRED_MONITORS = ["propagate_returns_seen", "r3_comparisons", "ladder_levels", "g_frames_read", "hop_draws",
                      "rescale_accepted", "rescale_rejected", "rescale_tie_trials", "after_hops_accepted",
                      "after_hops_frustrated", "after_trivial_relabels", "after_isolation_rows_compared",
+                     "afterseq_sequences_with_two_applied_events", "afterseq_isolation_rows_compared",
                      "tully_steps", "tully_hops_accepted"]
 CASE_TIMEOUT = 600.0
 BUDGET_S = {"quick": 220, "thorough": 1700}
@@ -132,6 +138,15 @@ def gen_cases(tier, seed):
         cases.append({"kind": "after", "scenario": sc, "regime": regimes[(k // len(scen)) % len(regimes)],
                       "ns": ns, "B": int(g.integers(2, 7)), "molsize": int(g.integers(1, 6)),
                       "dt": float(g.uniform(0.05, 0.5)), "decohere": bool(g.random() < 0.4), "seed": s()})
+    # (d) multi-step sequences on ONE dynamics object (persistent caches / buffers between crossing events)
+    n_s = 60 if q else 1200
+    for k in range(n_s):
+        ns = int(g.integers(3, 9))
+        nsteps = int(g.integers(3, 7))
+        nev = 2 if nsteps < 5 or g.random() < 0.5 else 3
+        cases.append({"kind": "afterseq", "ns": ns, "B": int(g.integers(2, 7)), "molsize": int(g.integers(1, 5)),
+                      "dt": float(g.uniform(0.05, 0.4)), "nsteps": nsteps, "nevents": nev,
+                      "regime": ["fixed", "adaptive-nospike"][k % 2], "decohere": bool(g.random() < 0.3), "seed": s()})
     cases.append({"kind": "selftest"})
     return cases
 
@@ -872,8 +887,8 @@ def _quiet_row0(inp):
     return out
 
 
-def _pipeline(inp, torch_seed):
-    """the electronic part of _do_integrator_step with the real methods, snapshots in between"""
+def _pipe_init(inp):
+    """one lightweight dynamics object + molecule that live for a whole sequence of steps"""
     import torch
     from types import SimpleNamespace
 
@@ -901,29 +916,47 @@ def _pipeline(inp, torch_seed):
 
     dyn._compute_NACR_for_hop = nacr
     dyn._recompute_active_force = recompute
-    co = {"energies": _T(inp["E0"]), "nac_dot": _T(inp["D0"]), "cis_amp": _T(inp["cis_old"])}
-    cn = {"energies": _T(inp["E1"]), "nac_dot": _T(inp["D1"]), "cis_amp": _T(inp["cis_new"])}
+    return {"dyn": dyn, "mol": mol, "calls": calls, "sub": inp["sub"], "nlog": 0}
+
+
+def _pipe_step(st, co, cn, torch_seed=None, step=0):
+    """the electronic part of _do_integrator_step with the real methods on the persistent object, snapshots in
+    between; co / cn are the cache dicts (torch tensors) exactly as the driver would hold them"""
+    import torch
+
+    dyn, mol = st["dyn"], st["mol"]
     dyn.post_hop_holdoff = (dyn.post_hop_holdoff - 1).clamp(min=0)
     sw = dyn._detect_crossings(co, cn)
     dyn._trivial_crossing_mask = sw
     swap = None if sw is None else sw.clone().numpy()
     _MON["nsub"].clear()
-    dyn._propagate_electronic(co, cn, substeps=inp["sub"])
+    dyn._propagate_electronic(co, cn, substeps=st["sub"])
     nsub = _MON["nsub"][-1] if _MON["nsub"] else None
     mid = {"amp": dyn._amp_phase.clone().numpy(), "act": dyn._active_states.clone().numpy(),
            "vel": mol.velocities.clone().numpy(), "etot": mol.Etot.clone().numpy(),
            "u": dyn._coeffs_complex().numpy(), "nd_new": cn["nac_dot"].clone().numpy()}
-    torch.manual_seed(torch_seed)
+    if torch_seed is not None:
+        torch.manual_seed(torch_seed)
     _MON["g"].clear()
-    dyn._after_electronic_update(mol, excitation_energies=cn["energies"], step=0)
+    dyn._after_electronic_update(mol, excitation_energies=cn["energies"], step=step)
     gframes = list(_MON["g"])
     fin = {"amp": dyn._amp_phase.clone().numpy(), "act": dyn._active_states.clone().numpy(),
            "vel": mol.velocities.clone().numpy(), "etot": mol.Etot.clone().numpy(),
            "hold": dyn.post_hop_holdoff.clone().numpy(), "prev": dyn.prev_state.clone().numpy(),
            "force": mol.force.clone().numpy(), "acc": mol.acc.clone().numpy(),
            "cur": dyn._current_potential.clone().numpy()}
-    log = [(int(e.mol_index), int(e.from_state), int(e.to_state), bool(e.accepted), e.reason) for e in dyn.hop_log]
-    return {"mid": mid, "fin": fin, "log": log, "swap": swap, "nsub": nsub, "calls": calls, "g": gframes}
+    log = [(int(e.mol_index), int(e.from_state), int(e.to_state), bool(e.accepted), e.reason)
+           for e in dyn.hop_log[st["nlog"]:]]
+    st["nlog"] = len(dyn.hop_log)
+    return {"mid": mid, "fin": fin, "log": log, "swap": swap, "nsub": nsub, "calls": st["calls"], "g": gframes}
+
+
+def _pipeline(inp, torch_seed):
+    """a single step on a fresh object"""
+    st = _pipe_init(inp)
+    co = {"energies": _T(inp["E0"]), "nac_dot": _T(inp["D0"]), "cis_amp": _T(inp["cis_old"])}
+    cn = {"energies": _T(inp["E1"]), "nac_dot": _T(inp["D1"]), "cis_amp": _T(inp["cis_new"])}
+    return _pipe_step(st, co, cn, torch_seed, step=0)
 
 
 def _beq(a, b):
@@ -934,28 +967,7 @@ def _beq(a, b):
     return np.array_equal(a, b)
 
 
-def _run_after(case):
-    hbar, K, ACC = _consts()
-    acc = _Acc()
-    sc, regime = case["scenario"], case["regime"]
-    want_hop = sc in ("accepted", "frustrated", "at-rest")
-    res = inp = None
-    tries = 0
-    for attempt in range(40):
-        tries += 1
-        inp = _after_inputs(case, attempt)
-        tseed = (case["seed"] + 7919 * attempt) % (2 ** 31)
-        res = _pipeline(inp, tseed)
-        if not want_hop or any(e[0] == 0 and e[4] != "Trivial crossing" for e in res["log"]):
-            break
-    if res["nsub"] is None:
-        return acc.result(False, inconclusive="frame local 'nsub' not readable")
-    acc.count("propagate_returns_seen")
-    acc.count("after_update_calls")
-    B, ns = inp["E0"].shape
-    mid, fin, log = res["mid"], res["fin"], res["log"]
-    acc.cells.add("after/%s/%s/decohere-%s" % (sc, regime, "on" if case["decohere"] else "off"))
-    # g range clauses on the frames of the real _attempt_hop inside the pipeline
+def _check_g_frames(acc, res, clause="g-range-in-pipeline"):
     for gr, tg, ok in res["g"]:
         if gr is None:
             acc.count("g_frame_missing")
@@ -963,8 +975,15 @@ def _run_after(case):
         gnp = gr.numpy()
         acc.count("g_frames_read")
         if gnp.min() < 0 or gnp.max() > 1 + 1e-12 or gnp.sum(axis=1).max() > 1 + 1e-12:
-            acc.violate("g-range-in-pipeline", None, gmin=float(gnp.min()), gmax=float(gnp.max()),
-                        rowsum=float(gnp.sum(axis=1).max()))
+            acc.violate(clause, None, gmin=float(gnp.min()), gmax=float(gnp.max()), rowsum=float(gnp.sum(axis=1).max()))
+
+
+def _judge_step(acc, inp, res, decohere, sc, regime):
+    """relabelling / hop / untouched-row oracles of ONE _after_electronic_update step.
+    inp needs: perms (planned old->new label map per row at this step), E1, nactab, m.  -> rows that attempted a hop"""
+    hbar, K, ACC = _consts()
+    B, ns = inp["E1"].shape
+    mid, fin, log = res["mid"], res["fin"], res["log"]
     # ---- relabelling ---------------------------------------------------------------------------------
     # Judged: whatever relabelling WAS applied is a permutation pi of the amplitude rows (bitwise), the active index
     # follows the same pi, and every label that moved went to the state it corresponds to (pi(i) = p(i), p = the
@@ -975,7 +994,7 @@ def _run_after(case):
         p = inp["perms"][b]
         ident = p == list(range(ns))
         hop_rows = [e for e in log if e[0] == b and e[4] != "Trivial crossing"]
-        decoh = case["decohere"] and bool(hop_rows)
+        decoh = decohere and bool(hop_rows)
         pm, pf = mid["amp"][b], fin["amp"][b]
         popm = pm[:, 0] ** 2 + pm[:, 1] ** 2
         popf = pf[:, 0] ** 2 + pf[:, 1] ** 2
@@ -1057,7 +1076,7 @@ def _run_after(case):
             if acc.margin("after_Ekin_plus_Eactive", abs(tot1 - tot0), tol):
                 acc.violate("accepted-hop-conserves-Ekin-plus-Eactive", mech, row=b, total_before=tot0, total_after=tot1,
                             dE=dE, ke_before=ke0, ke_after=ke1, v_dot_d=float(np.sum(mid["vel"][b] * d_eff)))
-            if case["decohere"]:
+            if decohere:
                 a = fin["amp"][b]
                 want = np.zeros_like(a)
                 want[to, 0] = 1.0
@@ -1077,6 +1096,32 @@ def _run_after(case):
             if int(fin["act"][b]) != int(exp_act[b]):
                 acc.violate("no-hop-row-active-index", MECH_CYCLE if _has_long_cycle(inp["perms"][b]) else None, row=b,
                             expected=int(exp_act[b]), got=int(fin["act"][b]), planned=inp["perms"][b])
+    return hopped
+
+
+def _run_after(case):
+    hbar, K, ACC = _consts()
+    acc = _Acc()
+    sc, regime = case["scenario"], case["regime"]
+    want_hop = sc in ("accepted", "frustrated", "at-rest")
+    res = inp = None
+    tries = 0
+    for attempt in range(40):
+        tries += 1
+        inp = _after_inputs(case, attempt)
+        tseed = (case["seed"] + 7919 * attempt) % (2 ** 31)
+        res = _pipeline(inp, tseed)
+        if not want_hop or any(e[0] == 0 and e[4] != "Trivial crossing" for e in res["log"]):
+            break
+    if res["nsub"] is None:
+        return acc.result(False, inconclusive="frame local 'nsub' not readable")
+    acc.count("propagate_returns_seen")
+    acc.count("after_update_calls")
+    B, ns = inp["E0"].shape
+    mid, fin, log = res["mid"], res["fin"], res["log"]
+    acc.cells.add("after/%s/%s/decohere-%s" % (sc, regime, "on" if case["decohere"] else "off"))
+    _check_g_frames(acc, res)
+    hopped = _judge_step(acc, inp, res, case["decohere"], sc, regime)
     if want_hop and 0 not in hopped:
         acc.count("after_no_hop_attempt_in_row0")
     # ---- row isolation: control run with a quiet row 0 --------------------------------------------------
@@ -1110,6 +1155,152 @@ def _run_after(case):
                     acc.violate("row-isolation-bitwise", None, row=b, differing=[k], scenario=sc, regime=regime)
     acc.obs.update({"tries": tries, "log": log[:6], "nsub": int(res["nsub"]), "ctrl_nsub": int(ctrl["nsub"]),
                     "swap_to_row0": None if res["swap"] is None else res["swap"][0].tolist(), "planned_row0": inp["perms"][0]})
+    return acc.result(True)
+
+
+# =======================================================================================================
+# (d) sequences: one object, several consecutive steps, crossing events at different steps / rows / pairs
+# =======================================================================================================
+def _seq_inputs(case):
+    from scipy.linalg import expm
+
+    g = np.random.default_rng(case["seed"])
+    ns, B, ms, dt, T = case["ns"], case["B"], case["molsize"], case["dt"], case["nsteps"]
+    nov = 12
+    act = g.integers(0, ns, B)
+    m = np.array([[MASSES[int(k)] for k in g.integers(0, len(MASSES), ms)] for _ in range(B)])
+    v = g.normal(0.0, 0.01, (B, ms, 3))
+    dlim = 0.9 / dt
+    E = np.zeros((T + 1, B, ns))
+    D = np.zeros((T + 1, B, ns, ns))
+    u0 = np.zeros((B, ns), complex)
+    th0 = np.zeros((B, ns))
+    for b in range(B):
+        E[0, b] = _energies(g, ns, float(10 ** g.uniform(-2, 0)))
+        sc_b = min(0.2 * dlim, float(10 ** g.uniform(-2, 0.0)))
+        D[0, b] = np.clip(_antisym(g, ns, sc_b), -dlim, dlim)
+        for t in range(T):
+            E[t + 1, b] = E[t, b] + g.normal(0, 0.01, ns)
+            D[t + 1, b] = np.clip(D[t, b] + _antisym(g, ns, 0.2 * sc_b), -dlim, dlim)
+        u0[b], th0[b] = _rand_amp(g, ns)
+    # events: distinct steps; a different row (mostly) or the same row with a different pair the next time
+    steps = sorted(int(x) for x in g.choice(T, case["nevents"], replace=False))
+    events, used = [], []
+    for j, t in enumerate(steps):
+        if j == 0 or (g.random() < 0.75 and B > 1):
+            cand = [r for r in range(B) if r not in [e["row"] for e in events]] or list(range(B))
+            row = int(cand[int(g.integers(0, len(cand)))])
+        else:
+            row = events[-1]["row"]
+        kinds = ["swap", "swap", "swap2"] + (["double-swap"] if ns >= 4 else []) + (["cycle3"] if g.random() < 0.3 else [])
+        for _ in range(20):
+            sc = kinds[int(g.integers(0, len(kinds)))]
+            p = _plan_perm(g, ns, sc, int(act[row]))
+            if p not in used:
+                break
+        used.append(p)
+        events.append({"step": t, "row": row, "scenario": sc, "perm": p})
+    Q0 = np.stack([np.linalg.qr(g.normal(size=(nov, nov)))[0][:ns] for _ in range(B)])
+    rot = np.zeros((T, B, nov, nov))
+    sgn = g.choice([-1.0, 1.0], (T, B, ns))
+    for t in range(T):
+        for b in range(B):
+            W = g.normal(size=(nov, nov)) * 0.02
+            rot[t, b] = expm(W - W.T)
+    base = {"E0": E[0], "dt": dt, "sub": None if case["regime"].startswith("adaptive") else int(g.choice([8, 16])),
+            "decohere": case["decohere"], "u0": u0, "th0": th0, "act": act, "m": m, "v": v,
+            "ftab": g.normal(0, 1.0, (B, ns, ms, 3)),
+            "nactab": {(i, j): g.normal(0, 10 ** g.uniform(-1, 1), (B, ms, 3)) for i in range(ns) for j in range(i + 1, ns)},
+            "etot": g.uniform(-3.0, 3.0, B)}
+    return {"base": base, "E": E, "D": D, "events": events, "Q0": Q0, "rot": rot, "sgn": sgn, "T": T, "B": B, "ns": ns}
+
+
+def _seq_run(si, events, torch_seed):
+    """run the whole sequence on one object with the given events -> (list of per-step results, per-step perms)"""
+    import torch
+
+    T, B, ns = si["T"], si["B"], si["ns"]
+    st = _pipe_init(si["base"])
+    torch.manual_seed(torch_seed)
+    cis = si["Q0"].copy()
+    co = {"energies": _T(si["E"][0]), "nac_dot": _T(si["D"][0]), "cis_amp": _T(cis)}
+    out, plans = [], []
+    for t in range(T):
+        perms = [list(range(ns)) for _ in range(B)]
+        for e in events:
+            if e["step"] == t:
+                perms[e["row"]] = e["perm"]
+        new = np.zeros_like(cis)
+        for b in range(B):
+            for i in range(ns):
+                new[b, perms[b][i]] = (cis[b, i] @ si["rot"][t, b]) * si["sgn"][t, b, i]
+        cn = {"energies": _T(si["E"][t + 1]), "nac_dot": _T(si["D"][t + 1]), "cis_amp": _T(new)}
+        res = _pipe_step(st, co, cn, None, step=t)
+        out.append(res)
+        plans.append(perms)
+        # shift the caches as _do_integrator_step does (nac_dot as left by _detect_crossings)
+        co = {"energies": cn["energies"].clone(), "nac_dot": cn["nac_dot"].clone(), "cis_amp": cn["cis_amp"].clone()}
+        cis = new
+    return out, plans
+
+
+def _run_afterseq(case):
+    acc = _Acc()
+    si = _seq_inputs(case)
+    T, B, ns = si["T"], si["B"], si["ns"]
+    tseed = case["seed"] % (2 ** 31)
+    full, plans = _seq_run(si, si["events"], tseed)
+    if any(r["nsub"] is None for r in full):
+        return acc.result(False, inconclusive="frame local 'nsub' not readable")
+    acc.count("propagate_returns_seen", T)
+    acc.count("after_update_calls", T)
+    acc.count("afterseq_steps", T)
+    acc.cells.add("afterseq/%s/steps%d/events%d/decohere-%s" % (case["regime"], T, len(si["events"]), "on" if case["decohere"] else "off"))
+    applied_steps = set()
+    for t, res in enumerate(full):
+        before = acc.mon.get("after_trivial_relabels", 0)
+        _check_g_frames(acc, res)
+        _judge_step(acc, {"perms": plans[t], "E1": si["E"][t + 1], "nactab": si["base"]["nactab"], "m": si["base"]["m"]},
+                    res, case["decohere"], "seq-step%d" % t, case["regime"])
+        if acc.mon.get("after_trivial_relabels", 0) > before:
+            applied_steps.add(t)
+    ev_steps = sorted(e["step"] for e in si["events"])
+    if len(applied_steps) >= 2:
+        acc.count("afterseq_sequences_with_two_applied_events")
+        rows = {e["row"] for e in si["events"] if e["step"] in applied_steps}
+        acc.cells.add("afterseq/applied-events-on-%s" % ("different-rows" if len(rows) > 1 else "same-row"))
+        if any(b - a > 1 for a, b in zip(ev_steps, ev_steps[1:])):
+            acc.cells.add("afterseq/quiet-step-between-events")
+    # ---- isolation: remove ONE event; every other row must stay bitwise identical through the whole sequence ----
+    for e in si["events"]:
+        ctrl, _ = _seq_run(si, [x for x in si["events"] if x is not e], tseed)
+        for t in range(T):
+            if ctrl[t]["nsub"] != full[t]["nsub"]:
+                acc.count("afterseq_isolation_skipped_nsub_differs")
+                break
+            for b in range(B):
+                if b == e["row"]:
+                    continue
+                acc.count("afterseq_isolation_rows_compared")
+                diffs = [k for k in ("amp", "act", "vel", "etot", "hold", "prev", "force", "acc", "cur")
+                         if not _beq(full[t]["fin"][k][b], ctrl[t]["fin"][k][b])]
+                if [x for x in full[t]["log"] if x[0] == b] != [x for x in ctrl[t]["log"] if x[0] == b]:
+                    diffs.append("hop_log")
+                if not _beq(full[t]["mid"]["amp"][b], ctrl[t]["mid"]["amp"][b]):
+                    diffs.append("amp_after_propagate")
+                if diffs:
+                    acc.violate("row-isolation-bitwise-in-sequence", None, row=b, step=t, differing=diffs,
+                                removed_event={k: e[k] for k in ("step", "row", "scenario", "perm")},
+                                events=[{k: x[k] for k in ("step", "row", "scenario", "perm")} for x in si["events"]],
+                                swap_to_full=None if full[t]["swap"] is None else full[t]["swap"].tolist(),
+                                swap_to_control=None if ctrl[t]["swap"] is None else ctrl[t]["swap"].tolist())
+                    break
+            else:
+                continue
+            break
+    acc.obs.update({"events": [{k: x[k] for k in ("step", "row", "scenario", "perm")} for x in si["events"]],
+                    "applied_at_steps": sorted(applied_steps), "nsub": [int(r["nsub"]) for r in full],
+                    "logs": [r["log"] for r in full][:6]})
     return acc.result(True)
 
 
@@ -1305,6 +1496,8 @@ def run_case(case):
         return _run_rescale(case)
     if kind == "after":
         return _run_after(case)
+    if kind == "afterseq":
+        return _run_afterseq(case)
     if kind == "tully":
         return _run_tully(case)
     if kind == "selftest":
